@@ -1598,7 +1598,7 @@ func TestGocvReplay(t *testing.T) {
 `}
 	// big integers (C18 / C01): the two's-complement conversions run through math/big and carry loops whose
 	// functional specification is not discharged; this bounded check stands in for them
-	replayers["scenario:C18-bigint"] = &Replayer{PkgDir: "ttlv", Oracle: "every accepted binary Big Integer item from a grid of value patterns (lengths 8, 16 and 24 bytes; all-zero, all-ones, sign-boundary and redundant sign-extension patterns; 2000 pseudo-random values with a fixed seed) decodes, re-encodes, decodes again to the same number, and the second re-encoding is byte-identical to the first",
+	replayers["scenario:C18-bigint"] = &Replayer{PkgDir: "ttlv", Oracle: "every accepted binary Big Integer item from a grid of value patterns (lengths 8, 16 and 24 bytes; all-zero, all-ones, sign-boundary and redundant sign-extension patterns; 2000 pseudo-random values with a fixed seed) decodes, re-encodes, decodes again to the same number, and the second re-encoding is byte-identical to the first; 1206 numbers around the powers of two up to 2^200 with both signs are written as well-formed items whose bytes denote the number in two's complement",
 		Template: `package ttlv
 
 import (
@@ -1679,6 +1679,31 @@ func TestGocvReplay(t *testing.T) {
 		}
 		if want.Cmp(n1) != 0 {
 			t.Fatalf("GOCV-REPRODUCED: {{.Obligation}}: big integer bytes %x denote %s but decode to %s", val, want, n1)
+		}
+	}
+	// encoder side: numbers around every power of two up to 2^200, both signs, against an independent
+	// two's-complement reading of the bytes written
+	for k := 0; k <= 200; k++ {
+		for _, delta := range []int64{-1, 0, 1} {
+			for _, sign := range []int64{1, -1} {
+				n := new(big.Int).Lsh(big.NewInt(1), uint(k))
+				n.Add(n, big.NewInt(delta))
+				n.Mul(n, big.NewInt(sign))
+				w := &ttlvWriter{}
+				w.BigInteger(0x42003C, n)
+				b := w.Bytes()
+				if len(b) < 16 || len(b)%8 != 0 || b[3] != 0x04 || int(b[4])<<24|int(b[5])<<16|int(b[6])<<8|int(b[7]) != len(b)-8 {
+					t.Fatalf("GOCV-REPRODUCED: {{.Obligation}}: big integer %s is written as a malformed item %x", n, b)
+				}
+				val := b[8:]
+				got := new(big.Int).SetBytes(val)
+				if val[0]&0x80 != 0 {
+					got.Sub(got, new(big.Int).Lsh(big.NewInt(1), uint(8*len(val))))
+				}
+				if got.Cmp(n) != 0 {
+					t.Fatalf("GOCV-REPRODUCED: {{.Obligation}}: big integer %s is written as %x, which denotes %s", n, val, got)
+				}
+			}
 		}
 	}
 }
